@@ -31,9 +31,9 @@ def obligations(tier):
     obls = [
         CH("federation_newest_dedup_w%d" % w, H, "federation", t, mode="E1s", functions=F[:3] + F[7:], env={"VERIF_PART": str(w)},
            bounds="wiring %d of 9 (6 attachment orders of a flat composite; 3 two-level composites, one with the filter on the Environment) x 3 versions (two "
-                  "within one millisecond) x any subset of 3 members each x filter on/off; get/all_versions/query/creator_of via composite and Environment" % w)
+                  "within one millisecond) x any subset of 3 members each x filter on/off; get/all_versions/query/creator_of via composite and Environment; the query as list, as a FilterSet object used twice (unchanged afterwards), as a single filter; an object without versions (2.1 SCO) that fails the filter" % w)
         for w in range(9)] + [
-        CH("deduplicate", H, "dedup", t, mode="E1s", functions=F[8:9], bounds="all lists of 3 objects (dicts or library objects) from 2 ids x 3 versions, two of them within one millisecond"),
+        CH("deduplicate", H, "dedup", t, mode="E1s", functions=F[8:9], bounds="all lists of 3 objects (dicts or library objects) from 2 ids x 3 versions, two of them within one millisecond, the third spelled three ways (a version is an instant)"),
     ]
     for q in range(3):
         obls.append(CH("navigation_q%d" % q, H, "navigation", t, mode="E1s", functions=F[3:8], env={"VERIF_PART": str(q)},
